@@ -1370,6 +1370,30 @@ func (a *Analysis) ResultAlias(site ssa.CallInstruction, i, j int) {
 	}
 }
 
+// ResultLoadsArg makes result i of the call include what the pointer argument j points to holds (an atomic load:
+// `p := atomic.LoadPointer(&x.f)` is `p := x.f`).
+func (a *Analysis) ResultLoadsArg(site ssa.CallInstruction, i, j int) {
+	sig := site.Common().Signature()
+	n := sig.Results().Len()
+	if i >= n {
+		return
+	}
+	t := sig.Results().At(i).Type()
+	pl := a.callResultPlace(site, i, t, n)
+	if an, ok := a.ArgNode(site, j); ok && pl.node >= 0 {
+		a.addComplex(an, constraint{kind: cLoad, suffix: "", other: pl.node})
+	}
+}
+
+// WriteArgThrough models `*arg_j = arg_k` (an atomic store of a pointer).
+func (a *Analysis) WriteArgThrough(site ssa.CallInstruction, j, k int) {
+	an, ok := a.ArgNode(site, j)
+	kn, ok2 := a.ArgNode(site, k)
+	if ok && ok2 {
+		a.addComplex(an, constraint{kind: cStore, suffix: "", other: kn})
+	}
+}
+
 // FreshResult gives the call a result object owned by the callee.
 func (a *Analysis) FreshResult(site ssa.CallInstruction) { a.freshResult(site, "ext") }
 
